@@ -137,8 +137,12 @@ where
         self.cap = new_sz;
         let old = mem::replace(&mut self.tbl, vec![HashTableElement::default(); new_sz]);
         let c = self.cap;
-        for i in old.iter() {
-            propagate(&mut self.tbl, self.cap, i.clone(), (i.hash as usize) % c);
+        // only re-insert occupied slots, and restart each entry's probe
+        // sequence length: it is relative to the new table, not the old one
+        for i in old.iter().filter(|x| x.is_occupied()) {
+            let mut itm = i.clone();
+            itm.psl = 0;
+            propagate(&mut self.tbl, self.cap, itm, (i.hash as usize) % c);
         }
     }
 
